@@ -288,6 +288,16 @@ def gen_c02(tier, seed):
                         opsx = [s[1], d[1]] if form == '2' else [s[1], r.choice(src_forms(r, sz, pick(sz), 2))[1], d[1]]
                         ops = setup_ops(regs, mem, ins(OP[base + sfx + form], *opsx) + [0x70, 0x70]) + ['st']
                         g.add(ops, 'zero-divisor')
+    # divide overflow written with unsigned expanded types (the only way both operands reach the halfword / byte arms
+    # without sign extension): {uhalf}0xffff into {uhalf}0x8000 and neighbours, all flag states
+    for name in ('DIVH2', 'DIVH3', 'DIVB2', 'DIVB3', 'MODH3', 'DIVW3'):
+        for (et, a, b) in (('uhalf', 0xffff, 0x8000), ('uhalf', 0xffff, 0x7fff), ('uhalf', 0xfffe, 0x8000), ('byte', 0xff, 0x80),
+                           ('uword', 0xffffffff, 0x80000000), ('sbyte', 0xff, 0x80), ('half', 0xffff, 0x8000)):
+            for fl in allflags():
+                regs = rnd_regs(r, psw_of(fl))
+                regs[0], regs[1] = a | (r.randrange(1 << 32) & ~0xffff if et != 'uword' else 0), b
+                o = [ex(et, reg(0)), ex(et, reg(1))] + ([reg(2)] if name.endswith('3') else [])
+                g.add(setup_ops(regs, [], ins(OP[name], *o) + [0x70, 0x70]) + ['st'], 'divide-overflow-expanded')
     return g.result('Every data-processing opcode (CLR MOV MCOM MNEG INC DEC TST BIT CMP, 2- and 3-operand ADD SUB MUL DIV MOD '
                     'AND OR XOR, ARS LLS ALS LRS ROT, INSF EXTF) at B/H/W x register / memory / immediate operand forms x '
                     'boundary-value pairs and random values x random initial condition codes x all shift counts 0-31 x all '
